@@ -81,9 +81,99 @@ def check(chk, repo, tier):
                f"{d!r} no longer opens a {kind} literal in the lexer",
                repo.mod("lexer").rel, sample={"kind": kind, "head": d})
 
+    # every digit of a compressed alphabet is read back verbatim by the lexer:
+    # `d digit d` and `d digit digit' d` (digit' over the lexer's own classes)
+    # lex to one literal whose value is the digits - the alphabet contains
+    # nothing the lexer treats specially inside that literal
+    for name, kind in (("codepage_number_compress", "COMPRESSED_NUMBER"),
+                       ("codepage_string_compress", "COMPRESSED_STRING")):
+        d = delim[name]
+        a = alph[name]
+        bad = None
+        n = 0
+        specials = [c for c in lp.reps if c in a]
+        for ch in a:
+            n += 1
+            if lp.run(d + ch + d) != [(kind, ch)]:
+                bad = bad or ch
+            for sp in specials:
+                n += 1
+                if lp.run(d + ch + sp + d) != [(kind, ch + sp)]:
+                    bad = bad or (ch + sp)
+        chk.ob("C15.alphabet-read-back-verbatim", f"encoding.{name}",
+               bad is None,
+               f"the literal {d + (bad or '') + d!r} is lexed as "
+               f"{lp.run(d + (bad or '') + d)}: a digit of the alphabet is "
+               "special inside its own literal, so some compressed values "
+               "decode to something else", repo.mod("lexer").rel,
+               witness=repr(d + (bad or "") + d),
+               sample={"alphabet": name, "literals lexed": n})
+
     helpers = repo.mod("helpers")
     elements = repo.mod("elements")
     HF, LF = helpers.rel, elements.rel
+
+    # ---- positional encode/decode invert each other (helpers, interpreted) ----------
+    ph = it.module("vyxal.helpers")
+    try:
+        tba_f, fba_f = ph.get("to_base_alphabet"), ph.get("from_base_alphabet")
+        tbd_f, fbd_f = ph.get("to_base_digits"), ph.get("from_base_digits")
+    except KeyError as exc:
+        raise AnalysisError(f"anchor vanished: helpers.{exc}") from None
+    from ..pe import PRaise  # noqa: PLC0415
+    bad = None
+    n = 0
+    tests = []
+    for base in (2, 3, 10, 27, 255):
+        vals = set(range(0, 2 * base + 2))
+        for k in (2, 3, 4):
+            vals |= {base ** k - 1, base ** k, base ** k + 1}
+        tests.append((base, sorted(vals)))
+    for base, vals in tests:
+        for v in vals:
+            n += 1
+            it.steps = 0
+            try:
+                digs = tbd_f(v, base)
+                back = fbd_f(digs, base)
+                ok = back == v and all(0 <= x < base for x in digs) \
+                    and len(digs) >= 1 and (digs[0] != 0 or v == 0)
+            except (PRaise, Exception) as exc:  # noqa: BLE001
+                ok, digs, back = False, None, repr(exc)
+            if not ok:
+                bad = bad or (v, base, digs, back)
+    chk.ob("C15.positional-roundtrip", "helpers.to_base_digits/from_base_digits",
+           bad is None,
+           f"{bad[0] if bad else ''} in base {bad[1] if bad else ''} encodes to "
+           f"{bad[2] if bad else ''} and decodes to {bad[3] if bad else ''}: "
+           "digits must be in range, most significant first and non-empty "
+           "(0 is the single digit 0)", HF, witness=repr(bad) if bad else None,
+           sample={"values x bases": n})
+    bad = None
+    n = 0
+    for name in ("base_27_alphabet", "codepage_number_compress",
+                 "codepage_string_compress", "compression"):
+        a = alph[name]
+        base = len(a)
+        for v in sorted(set(range(0, base + 3)) | {base ** 2 - 1, base ** 2,
+                                                   base ** 2 + 1,
+                                                   base ** 3 + 7}):
+            n += 1
+            it.steps = 0
+            try:
+                text = tba_f(v, a)
+                back = fba_f(text, a)
+                ok = back == v and all(c in a for c in text) and text != ""
+            except (PRaise, Exception) as exc:  # noqa: BLE001
+                ok, text, back = False, None, repr(exc)
+            if not ok:
+                bad = bad or (name, v, text, back)
+    chk.ob("C15.positional-roundtrip",
+           "helpers.to_base_alphabet/from_base_alphabet", bad is None,
+           f"alphabet {bad[0] if bad else ''}: {bad[1] if bad else ''} encodes "
+           f"to {bad[2] if bad else ''!r} and decodes to "
+           f"{bad[3] if bad else ''}", HF, witness=repr(bad) if bad else None,
+           sample={"values x alphabets": n})
 
     # ---- positional encode/decode use the same radix -------------------------------
     fba = helpers.function("from_base_alphabet")
